@@ -57,7 +57,7 @@ def sort_inputs(rng, tier):
         reps = 1
     else:
         extra = list(range(41, 300, 7)) + [500, 511, 512, 513, 1000, 1023, 1024, 1025, 1500, 2000] * 3
-        reps = 12
+        reps = 8
     for _ in range(reps):
         for n in lens + extra:
             shapes = SHAPES if (n <= 40 and tier != "quick") else [rng.choice(SHAPES), rng.choice(SHAPES)]
@@ -601,7 +601,7 @@ def check(rep, tier, seed, variant="hooks"):
     env = {"CHIBI_VERIF_HEAPCHECK": 1}
     quick = tier == "quick"
     heap_lines(rep, run_sorts(rep, b, env, rng, tier))
-    nh = 45 if quick else 4000
+    nh = 45 if quick else 2000
     for lib in L.LIBS:
         hs = []
         for i in range(nh):
